@@ -6,7 +6,9 @@ import (
 	"os"
 	"os/exec"
 	"reflect"
+	"runtime"
 	"strings"
+	"sync"
 	"testing"
 
 	"github.com/CrowdStrike/csproto"
@@ -76,7 +78,47 @@ func c12FixedProgram(mt *MsgType, seed int) *XCase {
 	return c
 }
 
+// c12ConcurrentFirstUseChild: for every type, 8 goroutines released together run the fixed program on a message of
+// their own - the first calls involving that type in this process happen at once.
+func c12ConcurrentFirstUseChild(t *testing.T, spec string) {
+	var k int
+	fmt.Sscanf(spec, "conc:%d", &k)
+	runtime.GOMAXPROCS([]int{16, 4, 2}[k%3])
+	for i, mt := range extTypes() {
+		progs := make([]*XCase, 8)
+		for g := range progs {
+			progs[g] = c12FixedProgram(mt, i+g+1)
+		}
+		fails := make([]*ev.Failure, len(progs))
+		var wg sync.WaitGroup
+		start := make(chan struct{})
+		for g := range progs {
+			g := g
+			wg.Add(1)
+			go func() {
+				defer wg.Done()
+				<-start
+				fails[g], _ = oracleC12(progs[g])
+			}()
+		}
+		close(start)
+		wg.Wait()
+		for g, f := range fails {
+			if f != nil {
+				fmt.Printf("C12-CHILD-FAIL first use = concurrent-first-use; goroutine %d of 8, on %s: %s: %.400s\n", g, mt.Key(), f.Sig, strings.ReplaceAll(f.Detail, "\n", " "))
+				t.Fail()
+				return
+			}
+		}
+	}
+	fmt.Println("C12-CHILD-OK")
+}
+
 func c12FirstUseChild(t *testing.T, spec string) {
+	if strings.HasPrefix(spec, "conc:") {
+		c12ConcurrentFirstUseChild(t, spec)
+		return
+	}
 	var k int
 	fmt.Sscanf(spec, "first:%d", &k)
 	for i, mt := range extTypes() {
@@ -98,8 +140,12 @@ func c12FirstUseChild(t *testing.T, spec string) {
 }
 
 func c12FirstUseRoundOnce(k int) *ev.Failure {
+	spec := fmt.Sprintf("first:%d", k)
+	if k >= 1000 { // rounds 1000.. are the concurrent ones
+		spec = fmt.Sprintf("conc:%d", k-1000)
+	}
 	cmd := exec.Command(os.Args[0], "-test.run", "^TestC12$", "-test.count=1")
-	cmd.Env = append(os.Environ(), fmt.Sprintf("%s=first:%d", envC12Child, k), "VERIF_EVIDENCE_PART=", "VERIF_REPLAY=")
+	cmd.Env = append(os.Environ(), fmt.Sprintf("%s=%s", envC12Child, spec), "VERIF_EVIDENCE_PART=", "VERIF_REPLAY=")
 	out, err := cmd.CombinedOutput()
 	if bytes.Contains(out, []byte("C12-CHILD-FAIL")) {
 		ln := ""
@@ -139,5 +185,20 @@ func c12FirstUseRounds(t *testing.T, rec *ev.Recorder) {
 		rec.Class("first-use-order-round")
 		rec.Sample("first-use", map[string]any{"k": k, "types": nTypes, "ops": c12FirstNames()})
 		rec.Check(t, "firstuse", map[string]any{"k": k}, f)
+	}
+	// ... and rounds in which the first use of every type is made by 8 goroutines at once
+	conc := 8
+	if ev.Thorough() {
+		conc = 80
+	}
+	for k := 0; k < conc; k++ {
+		if k%shards != shard {
+			continue
+		}
+		f := c12FirstUseRoundOnce(1000 + k)
+		rec.Eval(int64(nTypes * 8))
+		rec.NonTrivialEnum(int64(nTypes))
+		rec.Class("concurrent-first-use-round")
+		rec.Check(t, "firstuse", map[string]any{"k": 1000 + k}, f)
 	}
 }
